@@ -31,6 +31,7 @@ import (
 	"sync"
 	"syscall"
 	"time"
+	"unicode/utf16"
 
 	"github.com/dop251/goja"
 	"github.com/dop251/goja/ftoa"
@@ -105,11 +106,30 @@ func textTok(v goja.Value) string {
 	return strings.ReplaceAll(s, " ", "_")
 }
 
+// strArg decodes "s:<text>": '~' is a space, \uXXXX a UTF-16 code unit (4 hex digits).
 func strArg(s string) (string, bool) {
 	if !strings.HasPrefix(s, "s:") {
 		return "", false
 	}
-	return strings.ReplaceAll(s[2:], "~", " "), true
+	s = s[2:]
+	var units []uint16
+	for i := 0; i < len(s); i++ {
+		c := s[i]
+		switch {
+		case c == '~':
+			units = append(units, ' ')
+		case c == '\\' && i+5 < len(s) && s[i+1] == 'u':
+			v, err := strconv.ParseUint(s[i+2:i+6], 16, 16)
+			if err != nil {
+				return "", false
+			}
+			units = append(units, uint16(v))
+			i += 5
+		default:
+			units = append(units, uint16(c))
+		}
+	}
+	return string(utf16.Decode(units)), true
 }
 
 func (e *env) callText(f goja.Callable, args ...goja.Value) string {
